@@ -26,16 +26,17 @@ type Tok struct {
 
 // Opts controls how a tree is written down.
 type Opts struct {
-	Full   bool         `json:"full,omitempty"`   // parenthesise every operand
-	Extra  map[int]int  `json:"extra,omitempty"`  // node id -> redundant paren pairs around the node
-	ValPar map[int]int  `json:"valpar,omitempty"` // NField/NCmp node id -> paren pairs around the value term
-	LstPar map[int]int  `json:"lstpar,omitempty"` // NList node id -> bit mask of list values written in parentheses
-	ArgPar map[int]int  `json:"argpar,omitempty"` // NBoost/NFuzzy node id -> paren pairs around the written number
-	Juxta  map[int]bool `json:"juxta,omitempty"`  // AND node ids written as juxtaposition
-	KwCase []int        `json:"kwcase,omitempty"` // style per keyword occurrence, cycled
-	Fill   []string     `json:"fill,omitempty"`   // whitespace per gap, cycled; gap 0 is leading, last is trailing
-	Lead   string       `json:"lead,omitempty"`
-	Trail  string       `json:"trail,omitempty"`
+	Full    bool         `json:"full,omitempty"`    // parenthesise every operand
+	Extra   map[int]int  `json:"extra,omitempty"`   // node id -> redundant paren pairs around the node
+	ValPar  map[int]int  `json:"valpar,omitempty"`  // NField/NCmp node id -> paren pairs around the value term
+	LstPar  map[int]int  `json:"lstpar,omitempty"`  // NList node id -> bit mask of list values written in parentheses
+	LstNest map[int]int  `json:"lstnest,omitempty"` // NList node id -> 1: values grouped to the right v1 OR (v2 OR (v3 OR v4)), 2: to the left ((v1 OR v2) OR v3) OR v4
+	ArgPar  map[int]int  `json:"argpar,omitempty"`  // NBoost/NFuzzy node id -> paren pairs around the written number
+	Juxta   map[int]bool `json:"juxta,omitempty"`   // AND node ids written as juxtaposition
+	KwCase  []int        `json:"kwcase,omitempty"`  // style per keyword occurrence, cycled
+	Fill    []string     `json:"fill,omitempty"`    // whitespace per gap, cycled; gap 0 is leading, last is trailing
+	Lead    string       `json:"lead,omitempty"`
+	Trail   string       `json:"trail,omitempty"`
 }
 
 // Printed is the result of printing a tree.
@@ -157,9 +158,21 @@ func (p *printer) emit(n *Node, wrap, isRoot bool) {
 		p.term(n.Field, id)
 		p.sym(":", id)
 		p.sym("(", id)
+		nest := 0
+		if len(n.Vals) >= 3 {
+			nest = p.o.LstNest[id]
+		}
+		if nest == 2 {
+			for i := 0; i < len(n.Vals)-2; i++ {
+				p.sym("(", id)
+			}
+		}
 		for i, v := range n.Vals {
 			if i > 0 {
 				p.kwd("OR", id)
+				if nest == 1 && i < len(n.Vals)-1 {
+					p.sym("(", id)
+				}
 			}
 			if i < 30 && p.o.LstPar[id]&(1<<uint(i)) != 0 {
 				p.sym("(", id)
@@ -167,6 +180,14 @@ func (p *printer) emit(n *Node, wrap, isRoot bool) {
 				p.sym(")", id)
 			} else {
 				p.term(v, id)
+			}
+			if nest == 2 && i >= 1 && i < len(n.Vals)-1 {
+				p.sym(")", id)
+			}
+		}
+		if nest == 1 {
+			for i := 0; i < len(n.Vals)-2; i++ {
+				p.sym(")", id)
 			}
 		}
 		p.sym(")", id)
